@@ -159,6 +159,11 @@ def run(rep, tier, seed, replay):
         if not c.head.startswith("root="):
             rep.stats["direct:" + c.head] += 1
             continue
+        if c.link == "t" and any(k in ("lc", "ld", "lu") for _p, k, _d in walklib.rec_paths(c.f.get("rec", "-"), "@R")):
+            # a link that, AS REACHED by the traversal, re-enters an ancestor (through another link), dangles or cannot be read is
+            # an error item, not an entry: the statement computed from the recorded tree covers followed links to directories only
+            rep.stats["direct: not judged (a followed link is a fault on this traversal)"] += 1
+            continue
         obs, yl = expected(c)
         logs = c.f.get("logs", "-")
         layers = [] if logs == "-" else logs.split("|")
